@@ -15,10 +15,10 @@
 package dtls
 
 import (
-	"errors"
 	"bufio"
 	"bytes"
 	"encoding/json"
+	"errors"
 	"fmt"
 	"os"
 	"reflect"
@@ -435,7 +435,7 @@ func c18Run(t *testing.T, do func(line []byte, r *c18Res) (string, error)) {
 	if err != nil {
 		t.Fatal(err)
 	}
-	defer fin.Close() //nolint:errcheck
+	defer fin.Close()                                                         //nolint:errcheck
 	fout, err := os.OpenFile(out, os.O_APPEND|os.O_CREATE|os.O_WRONLY, 0o600) //nolint:gosec
 	if err != nil {
 		t.Fatal(err)
